@@ -3,15 +3,21 @@
 # break (scratch worktree + VERIF_REPO).  Output .work/seeded_matrix.txt; a line without VIOLATION is a missed change.
 # usage: tools/seeded_matrix.sh [name-prefix] [tier]
 cd /verif
-out=.work/seeded_matrix.txt; : > $out
+out=.work/seeded_matrix.txt; : > $out; : > .work/seeded_matrix.jsonl
 run_one() {
   d=$1; name=$(basename $d); id=${name%%-*}; tier=${2:-quick}
   wt=/tmp/seedwt-$name
   git -C /repo worktree add -q --detach $wt HEAD || { echo "$name worktree-failed" ; return; }
   if git -C $wt apply $d/patch.diff; then
-    res=$(VERIF_REPO=$wt ./check $id --tier $tier 2>&1 | grep -E "VIOLATION" | grep -v "done in" | sed 's#replay=/verif/replays/##' | cut -c1-120 | tr '\n' ' ')
+    full=$(VERIF_REPO=$wt ./check $id --tier $tier 2>&1 | grep -E "^VIOLATION|^KNOWN-FINDING")
+    res=$(echo "$full" | grep VIOLATION | sed 's#replay=/verif/replays/##' | cut -c1-120 | tr '\n' ' ')
     [ -z "$res" ] && res="SILENT"
     echo "$name $id :: $res"
+    python3 - "$name" "$id" "$tier" <<PY >> /verif/.work/seeded_matrix.jsonl
+import json, sys
+lines = [l for l in """$full""".split("\n") if l.startswith("VIOLATION")]
+print(json.dumps({"name": sys.argv[1], "id": sys.argv[2], "tier": sys.argv[3], "lines": lines}))
+PY
   else echo "$name :: patch-does-not-apply"; fi
   git -C /repo worktree remove --force $wt
 }
